@@ -1355,7 +1355,11 @@ class Recompiler:
         for tp1 in tp.args:
             realindex = self._typesdict[tp1]
             if index != realindex:
-                if isinstance(tp1, model.PrimitiveType):
+                if (isinstance(tp1, model.PrimitiveType) and
+                        not tp1.is_complex_type()):
+                    # (not for complex types: the generated wrapper passes
+                    # '_cffi_type(realindex)' to _cffi_to_c(), so that slot
+                    # must be realized together with the function)
                     self._emit_bytecode_PrimitiveType(tp1, index)
                 else:
                     self.cffi_types[index] = CffiOp(OP_NOOP, realindex)
